@@ -9,6 +9,8 @@ pub mod c09;
 pub mod c10;
 pub mod c11;
 pub mod c12;
+pub mod c13;
+pub mod c14;
 pub mod c18;
 pub mod hist;
 
@@ -36,6 +38,8 @@ pub fn run(id: &str, tier: Tier, seed: u64) -> Option<i32> {
         "C06" => Some(c06::run(tier, seed)),
         "C07" => Some(c07::run(tier, seed)),
         "C09" => Some(c09::run(tier, seed)),
+        "C13" => Some(c13::run(tier, seed)),
+        "C14" => Some(c14::run(tier, seed)),
         _ => hist_prop(id).map(|hp| hist::run(&hp, tier, seed)),
     }
 }
@@ -46,6 +50,8 @@ pub fn replay(id: &str, v: &serde_json::Value) -> Result<Option<String>, String>
         "C06" => c06::replay(v),
         "C07" => c07::replay(v),
         "C09" => c09::replay(v),
+        "C13" => c13::replay(v),
+        "C14" => c14::replay(v),
         _ => match hist_prop(id) {
             Some(hp) => hist::replay_value(&hp, v),
             None => Err(format!("unknown property {}", id)),
